@@ -194,6 +194,7 @@ struct Run {
     OS o; dimension_type n = dim(s);
     o << "arg " << s << " " << n << " cons"; put_cs(o, slot[s]->constraints(), n);
     J.line(o.str());
+    status_line(s);     // the lazy state at this very moment (an operand of a const method may have been closed meanwhile)
   }
   void res(int s) {
     dimension_type n = dim(s);
